@@ -656,16 +656,50 @@ def install(cfg):
 
     clock = cfg.get("clock") or "2024-06-15T12:00:00"
     fake = _fake_datetime_module(clock)
-    import reuse.cli.annotate as _ann
-    import reuse.report as _rep
-    _ann.datetime = fake
-    _rep.datetime = fake
+    try:
+        import reuse.cli.annotate as _ann
+        _ann.datetime = fake
+    except ImportError:  # a refactored tree may keep the clock elsewhere; the scan below finds it
+        pass
+    try:
+        import reuse.report as _rep
+        _rep.datetime = fake
+    except ImportError:
+        _rep = types.SimpleNamespace()
+    # wherever else inside reuse the clock is read (today: nowhere): every module-level name bound to the datetime
+    # module, to its date/datetime classes or to the time module reads the simulated clock too
+    import time as _time
+    now_epoch = _dt.datetime.fromisoformat(clock).replace(tzinfo=_dt.timezone.utc).timestamp()
+    fake_time = types.SimpleNamespace(**{k: getattr(_time, k) for k in dir(_time) if not k.startswith("__")})
+    fake_time.time = lambda: now_epoch
+    fake_time.time_ns = lambda: int(now_epoch * 1_000_000_000)
+    fake_time.localtime = lambda secs=None: _time.gmtime(now_epoch if secs is None else secs)
+    fake_time.gmtime = lambda secs=None: _time.gmtime(now_epoch if secs is None else secs)
+    fake_time.strftime = lambda fmt, t=None: _time.strftime(fmt, _time.gmtime(now_epoch) if t is None else t)
+    fake_time.ctime = lambda secs=None: _time.asctime(_time.gmtime(now_epoch if secs is None else secs))
+    for mname, mod in list(sys.modules.items()):
+        if mod is None or not (mname == "reuse" or mname.startswith("reuse.")):
+            continue
+        for attr, val in list(vars(mod).items()):
+            if val is _dt:
+                setattr(mod, attr, fake)
+            elif val is _dt.datetime:
+                setattr(mod, attr, fake.datetime)
+            elif val is _dt.date:
+                setattr(mod, attr, fake.date)
+            elif val is _time:
+                setattr(mod, attr, fake_time)
 
     def fake_uuid4():
         sim.uuid_n += 1
         return _uuid.UUID(int=prf(sim.seed, "uuid", sim.step, sim.uuid_n) << 64 | prf(sim.seed, "uuid2", sim.step, sim.uuid_n))
 
     _rep.uuid4 = fake_uuid4
+    for mname, mod in list(sys.modules.items()):
+        if mod is not None and (mname == "reuse" or mname.startswith("reuse.")):
+            for attr, val in list(vars(mod).items()):
+                if val is _uuid.uuid4:
+                    setattr(mod, attr, fake_uuid4)
     random.seed(prf(sim.seed, "random", sim.step))
     # names of temporary files (tempfile seeds its own generator from the OS): from the plan's seed
     import tempfile
